@@ -213,7 +213,7 @@ def parse_prints(out):
     so parsing is by bracket matching on the whole text.
     """
     vals = []
-    for m in re.finditer(r'<<"V", ', out):
+    for m in re.finditer(r'<<\s*"V",\s', out):  # long values are wrapped by TLC as `<< "V",`
         try:
             v, _ = _parse_value(out, m.start())
             vals.append(v)
